@@ -19,7 +19,7 @@ BUILD = "dbg"
 CRASH_IS_VIOLATION = True
 TIERS = {
   "quick": {"runs": 64, "chunk": 4, "budget_s": 540, "timeout_s": 500, "crash_min_tries": 10},
-  "thorough": {"runs": 960, "chunk": 6, "budget_s": 3400, "timeout_s": 900, "crash_min_tries": 30},
+  "thorough": {"runs": 256, "chunk": 4, "budget_s": 1800, "timeout_s": 900, "crash_min_tries": 20},
 }
 RULE = ("one evaluation = one public op (step, forward, step1, step2, reset_data, reset_data_keyframe, get_data_into, get/set_state) executed "
         "under the bounds-checked debug build on a Data with injected faults, or one invalid-configuration probe that must raise; runs are "
